@@ -222,6 +222,40 @@ fn main() {
             }
             println!("histories {}", lines.len());
         }
+        Some("trace-traversal") => {
+            // functions of parsed inputs and of builder-made trees (TLC build histories)
+            let inputs = cases::resolve_inputs(&get("inputs", "gen:100"), seed);
+            let mut lines: Vec<serde_json::Value> = inputs
+                .par_iter()
+                .flat_map(|i| {
+                    let cfg = wv::run::Cfg { probe: false, ..Default::default() };
+                    match wv::run::parse(&i.bytes, &cfg) {
+                        Ok(mut p) => wv::traversal::cases_of(&i.id, &i.source, &mut p.module),
+                        Err(_) => vec![],
+                    }
+                })
+                .collect();
+            if let Some(h) = a.get("histories") {
+                let hs = wv::builder::read_histories(h);
+                let more: Vec<serde_json::Value> = hs
+                    .par_iter()
+                    .enumerate()
+                    .flat_map(|(k, h)| {
+                        let mut m = wv::builder::build_module(h);
+                        wv::traversal::cases_of(&format!("built{}", k), &format!("builder:{}", k), &mut m)
+                    })
+                    .collect();
+                lines.extend(more);
+            }
+            cases::write_lines(&out, &lines);
+            println!("cases {}", lines.len());
+        }
+        Some("deep") => {
+            // run in a process of its own: a stack overflow kills the process, which the driver reports
+            let depth: usize = get("depth", "100000").parse().unwrap();
+            let stack: usize = get("stack", "256").parse().unwrap();
+            println!("{}", wv::traversal::deep_nesting(depth, stack));
+        }
         Some("digests") => {
             // one line per input: id and digest of  parse ; emit  with the default switches (separate process per call)
             let inputs = cases::resolve_inputs(&get("inputs", "gen:100"), seed);
